@@ -80,6 +80,10 @@ func (c *WarmUpTrafficShapingCalculator) CalculateAllowedTokens(_ uint32, _ int3
 	if restToken >= int64(c.warningToken) {
 		aboveToken := restToken - int64(c.warningToken)
 		warningQps := math.Nextafter(1.0/(float64(aboveToken)*c.slope+1.0/c.threshold), math.MaxFloat64)
+		if warningQps < 1.0 && c.threshold >= 1.0 {
+			// A cold rate below one token would reject every request, so the bucket would never drain: keep one token per window.
+			warningQps = 1.0
+		}
 		return warningQps
 	} else {
 		return c.threshold
